@@ -1,5 +1,6 @@
 """Computation of event contour from event mask"""
 from collections import deque
+import hashlib
 import numbers
 
 import numpy as np
@@ -36,8 +37,7 @@ class LazyContourList(object):
         self.masks = masks
         self.contours = deque(maxlen=max_events or None)
         self.indices = deque(maxlen=max_events or None)
-        #: used for hashing in ancillary features
-        self.identifier = str(masks[0][:].tobytes())
+        self._identifier = None
         self.shape = len(masks), np.nan, 2
 
     def __getitem__(self, idx):
@@ -74,6 +74,25 @@ class LazyContourList(object):
 
     def __len__(self):
         return len(self.masks)
+
+    @property
+    def identifier(self):
+        """Used for hashing in ancillary features
+
+        The identifier must change whenever any of the masks changes
+        (not only the first one). It is computed on first access.
+        """
+        if self._identifier is None:
+            masks = self.masks
+            if hasattr(masks, "identifier"):
+                # file-based masks
+                self._identifier = str(masks.identifier)
+            elif isinstance(masks, np.ndarray):
+                self._identifier = hashlib.md5(
+                    np.ascontiguousarray(masks).view(np.uint8)).hexdigest()
+            else:
+                self._identifier = str(masks[0][:].tobytes())
+        return self._identifier
 
 
 def get_contour(mask):
